@@ -177,6 +177,49 @@ theorem swap_state_dict_involutive (h h' : Heap) (m : MId) (p s : List (Name × 
   rw [prune_id s (swap_normal hs (normal_prune p))]
   exact swap_restores hwf hnd' hs (HeapEq.refl h')
 
+theorem applyHooks_id (hk : List Name → Tn → Tn) (hid : ∀ path t, hk path t = t) :
+    ∀ (pre : List Name) (p : List (Name × PTree)), applyHooks hk pre p = p
+  | _, [] => by simp [applyHooks]
+  | pre, (k, .leaf t) :: r => by
+    simp only [applyHooks, hid, if_true]
+    rw [applyHooks_id hk hid pre r]
+  | pre, (k, .node es) :: r => by
+    simp only [applyHooks]
+    rw [applyHooks_id hk hid (pre ++ [k]) es, applyHooks_id hk hid pre r]
+
+/-- hooks that leave the entries alone: the state-dict API is the plain swap of the re-nested tensordict, and
+`swap_state_dict_involutive` applies -/
+theorem swap_state_dict_hooks_id (hk : List Name → Tn → Tn) (hid : ∀ path t, hk path t = t) (h : Heap) (m : MId)
+    (p : List (Name × PTree)) : swapSDHook hk h m p = swapSD h m p := by
+  unfold swapSDHook swapSD
+  rw [applyHooks_id hk hid [] p]
+
+/-- a module with one parameter `w`, and a pre-hook that replaces the entry `w` of the state dict by a new tensor
+(`state_dict[prefix + "weight"] = 2 * state_dict[prefix + "weight"]`): object `n` becomes object `n + 100` -/
+def hW : Heap := fun c => if c = 0 then { params := [("w", some ⟨1, true, false⟩)] } else {}
+def hkDouble : List Name → Tn → Tn := fun path t => if path = ["w"] then { t with id := t.id + 100 } else t
+
+/-- the with-protocol through the state-dict API with hooks, normal exit -/
+def roundTripSDHook (hk : List Name → Tn → Tn) (h : Heap) (m : MId) (p : List (Name × PTree)) : Option (Heap × Heap) :=
+  match swapSDHook hk h m p with
+  | .ok (h1, s) => match swapSDHook hk h1 m s with
+    | .ok (h2, _) => some (h1, h2)
+    | .error _ => none
+  | .error _ => none
+
+/-- **state_dict_hook_reapplied_counterexample** (recorded finding `C13-state-dict-hook-reapplied-on-exit`, found after the
+repository freeze) — `with params.to_module(module, use_state_dict=True)` on a module whose load-state-dict pre-hook rewrites
+an entry: inside the block the module holds the rewritten supplied tensor (object 110), but `__exit__` runs the same call on
+the swap, the hook rewrites the module's *own* tensor (object 1 ↦ 101), and the module ends with another object — and, in
+the library, other values — than it started with. -/
+theorem state_dict_hook_reapplied_counterexample :
+    (roundTripSDHook hkDouble hW 0 [("w", .leaf ⟨10, true, false⟩)]).map
+        (fun hh => (cellAt hh.1 0 "w", cellAt hh.2 0 "w"))
+      = some (⟨some (some ⟨110, true, false⟩), none, none⟩, ⟨some (some ⟨101, true, false⟩), none, none⟩) ∧
+    cellAt hW 0 "w" = ⟨some (some ⟨1, true, false⟩), none, none⟩ := by
+  simp [roundTripSDHook, swapSDHook, applyHooks, hkDouble, pruneEmpty, leavesOf, nodesRenest, swap, swapEntries,
+    swapEntriesWith, setTensor, setTensorNative, hW, Dict.get?, Dict.set, Option.join, Heap.upd, cellAt, Mod.cell]
+
 /-! ## with-blocks -/
 
 /-- **blocks_restore** — any program of with-blocks, nested to any depth, with `raise` at any point of
